@@ -83,6 +83,20 @@ def championWhy (weq : W → W → Bool) (afterPrepare after : Pop W) : String :
   | some (s : Species W) => "species " ++ toString s.id ++ " (quota " ++ toString s.expectedOffspring ++ "): no unmodified copy of its champion in the next generation"
   | none => ""
 
+/-- C10, stated from the population BEFORE the turnover: for every species whose quota exceeds five, some organism of
+    that species with the greatest RAW fitness (the fittest organism; unique when the values are distinct) has an
+    unmodified copy of its genome in the next generation. Independent of how the implementation ordered the species. -/
+def fittestWhy (weq : W → W → Bool) (before afterPrepare after : Pop W) : String :=
+  match afterPrepare.species.find? (fun (s : Species W) =>
+      decide (s.expectedOffspring > 5) &&
+      (match before.species.find? (fun (b : Species W) => b.id == s.id) with
+       | none => false
+       | some b =>
+         let fittest := b.orgs.filter (fun x => b.orgs.all (fun y => !(lt x.fitness y.fitness)))
+         !fittest.isEmpty && !fittest.any (fun champ => (allOrgs after).any (fun o => genomeEqModId weq champ.genome o.genome)))) with
+  | some (s : Species W) => "species " ++ toString s.id ++ " (quota " ++ toString s.expectedOffspring ++ "): no unmodified copy of its fittest organism (greatest raw fitness before the turnover) in the next generation"
+  | none => ""
+
 /-- C03 over one epoch: an innovation number denotes one link and a node id one role across both generations;
     numbers and node ids that first appear in the new generation are above the counters the population had
     before; the record of innovations is empty afterwards -/
